@@ -269,8 +269,23 @@ def valid_variant(rng, kind, tok):
     return v
 
 
+EXOTIC = [('complex', {'t': 'exotic', 'v': 'complex'}),
+          ('dict', {'t': 'exotic', 'v': 'dict'}),
+          ('set', {'t': 'exotic', 'v': 'set'}),
+          ('object', {'t': 'exotic', 'v': 'object'}),
+          ('bytes', {'t': 'bytes', 'v': 'x'}),
+          ('function', {'t': 'exotic', 'v': 'function'}),
+          ('type', {'t': 'exotic', 'v': 'type'})]
+
+
 def invalid_values(kind):
-    """Catalogue of values outside the documented domain of ``kind``."""
+    """Catalogue of values outside the documented domain of ``kind``
+    (plus, for every kind, objects that are in no parameter's domain)."""
+    base = _invalid_values(kind)
+    return base + EXOTIC if base else base
+
+
+def _invalid_values(kind):
     Q = lambda v, unit: {'t': 'q', 'v': v, 'u': unit}  # noqa
     pixarr = {'t': 'pix', 'x': [1.0, 2.0, 3.0], 'y': [1.0, 5.0, 2.0]}
     pix2d = {'t': 'pix', 'x': {'t': 'arr', 'v': [[1.0, 2.0], [3.0, 4.0]]},
@@ -373,6 +388,9 @@ def _mutated_pixcoord(how):
 
 
 def build_invalid(rec):
+    if isinstance(rec, dict) and rec.get('t') == 'exotic':
+        return {'complex': 1 + 2j, 'dict': {'a': 1}, 'set': {1, 2},
+                'object': object(), 'function': len, 'type': float}[rec['v']]
     if isinstance(rec, dict) and rec.get('t') == 'bytes':
         return rec['v'].encode()
     if isinstance(rec, dict) and rec.get('t') == 'npstr':
